@@ -78,18 +78,21 @@ impl RecvError {
     }
 }
 
+/// Callback for a received port.
+type PortCallback = Box<dyn FnOnce(chmux::PortNumber, chmux::Request) -> BoxFuture<'static, ()> + Send + 'static>;
+
+/// Expected ports with their callbacks by remote port.
+#[cfg(not(remoc_verif))]
+type ExpectedMap = HashMap<u32, (chmux::PortNumber, PortCallback)>;
+#[cfg(remoc_verif)]
+type ExpectedMap = HashMap<u32, (chmux::PortNumber, PortCallback), crate::exec::verif::DetHasher>;
+
 /// Gathers ports sent from the remote endpoint during deserialization.
 pub struct PortDeserializer {
     allocator: chmux::PortAllocator,
     /// Callbacks by remote port.
     #[allow(clippy::type_complexity)]
-    expected: HashMap<
-        u32,
-        (
-            chmux::PortNumber,
-            Box<dyn FnOnce(chmux::PortNumber, chmux::Request) -> BoxFuture<'static, ()> + Send + 'static>,
-        ),
-    >,
+    expected: ExpectedMap,
     storage: AnyStorage,
     tasks: Vec<BoxFuture<'static, ()>>,
 }
@@ -102,7 +105,7 @@ impl PortDeserializer {
     /// Create a new port deserializer and register it as active.
     fn start(allocator: chmux::PortAllocator, storage: AnyStorage) -> Rc<RefCell<PortDeserializer>> {
         let this =
-            Rc::new(RefCell::new(Self { allocator, expected: HashMap::new(), storage, tasks: Vec::new() }));
+            Rc::new(RefCell::new(Self { allocator, expected: ExpectedMap::default(), storage, tasks: Vec::new() }));
         let weak = Rc::downgrade(&this);
         Self::INSTANCE.with(move |i| i.replace(weak));
         this
